@@ -57,7 +57,7 @@ def check(case):
 
 
 def _strategy(tier):
-    return sources.any_text(tier, weights=(2, 2, 1, 4, 2, 3, 1, 4, 1)).map(lambda t: {'text': t})
+    return sources.any_text(tier, weights=(2, 2, 1, 4, 2, 3, 1, 4, 1, 2)).map(lambda t: {'text': t})
 
 
 LEGS = [Leg('text', check=check, strategy=_strategy, examples={'quick': 16000, 'thorough': 400000})]
